@@ -23,6 +23,9 @@ Case (JSON):
     ["st_addg", c, via]  ["st_rmg", c, via]                store.add_graph / store.remove_graph
     ["iopen", k, g, via, s|None, p|None, o|None]   create generator k = g.triples(pattern)
     ["istep", k, n]                      n × next(generator k)   (the generator "begins" at its first next())
+  What the statement demands of an iteration that overlaps writes (and all the oracle demands): no exception, and
+  every yielded triple matches the pattern and was in the ITERATED graph in at least one of the states the graph went
+  through from the first next() to the yield.  Not demanded: snapshot semantics, completeness, or absence of repeats.
   store = "simple": two `SimpleMemory` stores i ∈ {0,1}, one graph each (identifier 50+i), ops
     ["sadd", i, via, s,p,o] ["sremove", i, via, s,p,o] ["sset", …] ["saddN", i, via, quads] ["siadd", i, via, src]
     ["sisub", i, via, src]  src additionally ["store", j]  (the graph of the other simple store)   ["sbin", op, i, j]
@@ -150,20 +153,37 @@ def gen_case(rng, tier, i):
     if store == "mem" and rng.random() < 0.4:
         # interleaving scenario: a few adds, generators with wild-carded patterns, then single steps between mutations
         G = [0, 1, 2]
+        # "writer" variant: the iterated graph A is the ONLY graph of the store with any data when the iteration
+        # starts; while it is suspended the other graphs receive their first triples (sharing subjects /
+        # predicates / objects with A's), are emptied again, …  The iteration must still yield A's triples only.
+        writer = rng.random() < 0.4
+        ga = rng.choice(G)
         for _ in range(rng.randint(2, 8)):
-            ops.append(["add", rng.choice(G), rng.randint(0, 1)] + pick())
+            ops.append(["add", ga if writer else rng.choice(G), rng.randint(0, 1)] + pick())
         first_g = ops[0][1]
         nit = rng.randint(1, 3)
         for k in range(nit):
             t = pick()
             m = rng.choice([1, 2, 3, 4, 4, 5, 6, 6, 7])
-            gi = first_g if rng.random() < 0.6 else rng.choice(G)
+            gi = first_g if rng.random() < (0.9 if writer else 0.6) else rng.choice(G)
             ops.append(["iopen", k, gi, rng.randint(0, 1)] + [None if m & 1 else t[0], None if m & 2 else t[1], None if m & 4 else t[2]])
         for _ in range(rng.randint(3, 12)):
             ops.append(["istep", rng.randrange(nit), 1])
             for _ in range(rng.randint(0, 2)):
                 g, via, r = rng.choice(G), rng.randint(0, 1), rng.random()
-                if r < 0.55:
+                if writer and r < 0.6:
+                    gb = rng.choice([x for x in G if x != ga])
+                    t = pick() if rng.random() < 0.5 else tr()
+                    w_ = rng.random()
+                    if w_ < 0.5:
+                        ops.append(["add", gb, via] + t)
+                    elif w_ < 0.75:
+                        ops.append(["st_add", gb, rng.choice([via, 2])] + t)
+                    elif w_ < 0.9:
+                        ops.append(["iadd", gb, via, ["list", [t, tr()]]])
+                    else:
+                        ops.append(["addN", gb, via, [t + [gb, "twin"]]])
+                elif r < 0.55:
                     ops.append(["remove", g, via] + pick())
                 elif r < 0.7:
                     ops.append(["remove", g, via] + pat())
@@ -569,7 +589,19 @@ def _apply(w, op, stats):
         else:
             name, a, b = op[1], w.objs[op[2]][0], w.objs[op[3]][1]
             A, B = w.sets[op[2]], w.sets[op[3]]
-        r = {"add": lambda: a + b, "sub": lambda: a - b, "mul": lambda: a * b, "xor": lambda: a ^ b}[name]()
+        alias = (len(A) + len(B)) % 2 == 1   # `|` and `&` are the same methods under another name; `|=`, `&=`, `^=` rebind
+        if alias and name in ("add", "mul", "xor"):
+            r = a
+            if name == "add":
+                r |= b
+            elif name == "mul":
+                r &= b
+            else:
+                r ^= b
+            if r is a:
+                viol.append(f"binop: in-place form of {name} returned the left operand itself")
+        else:
+            r = {"add": lambda: a + b, "sub": lambda: a - b, "mul": lambda: a * b, "xor": lambda: a ^ b}[name]()
         got = [_ids(t) for t in r]
         want = {"add": A | B, "sub": A - B, "mul": A & B, "xor": A ^ B}[name]
         if len(got) != len(set(got)):
